@@ -188,6 +188,15 @@ def oracle(case):
         Qb[:, col] += q['bump'] * spread
         cdfb = np.atleast_1d(np.asarray(value(model.cumulative_distribution, pd.DataFrame(Qb, columns=names), what='cumulative_distribution'), dtype=float))
         require(np.all(cdfb >= cdf0 - 2e-4), 'raising column %r lowers cumulative_distribution: %r -> %r' % (names[col], cdf0, cdfb), tag='cdf-monotone')
+    # ---- the same points in single precision: the result depends on the points, not on the dtype they arrive in ----
+    Q32 = Q.astype(np.float32)
+    if np.all(np.isfinite(Q32)):
+        ref64 = np.atleast_1d(np.asarray(value(model.probability_density, pd.DataFrame(Q32.astype(float), columns=names), what='probability_density'), dtype=float))
+        for label, arg in (('float32 DataFrame', pd.DataFrame(Q32, columns=names)), ('float32 array', Q32.copy())):
+            got32 = np.atleast_1d(np.asarray(value(model.probability_density, arg, what='probability_density(%s)' % label), dtype=float))
+            require(got32.shape == ref64.shape and np.all(np.abs(got32 - ref64) <= 1e-9 * np.abs(ref64) + 1e-300),
+                    'probability_density of a %s differs from the density of exactly the same points given as float64: %r vs %r'
+                    % (label, got32[:3], ref64[:3]), tag='dtype-pdf')
     # ---- container equivalence ----
     cont, permuted = as_container(Q, names, q['container'], q['col_perm'])
     pdf1 = np.atleast_1d(np.asarray(value(model.probability_density, cont, what='probability_density(%s)' % q['container']), dtype=float))
